@@ -13,7 +13,7 @@ FAILING = ['addi x1, x1, 5000', 'add x1, x1, foo', 'j nolabel', 'addi x1, x1, NO
            'include nosuch_file.asm', 'db 256', 'li x5, SHARED_L', 'addi x8, x8, SHARED_K', 'beq x1, x2, SHARED_L']
 
 
-def build_pool(seed, n=84):
+def build_pool(seed, n=91):
     """-> list of entries {'src': text | None, 'tree': bool, 'compress': bool, 'dicts': bool}"""
     rng = random.Random('c16-pool-%d' % seed)
     pool = []
@@ -69,6 +69,17 @@ def build_pool(seed, n=84):
     pool.append({'src': 'OFF = 8\nlw x8, OFF(x9)\naddi x9, x9, OFF\nc.nop\n', 'compress': True, 'dicts': True})
     pool.append({'src': 'li x9, 1\nOFF:\nlw x8, OFF(x9)\naddi x9, x9, OFF\nlw x10, 4(x8)\n', 'compress': True, 'dicts': True})
     pool.append({'src': 'OFF = 4\nli x9, 1\nsw x8, OFF(x9)\n', 'compress': True, 'dicts': False})
+    # twins: the same instructions but for operands that collide where a table is keyed by something coarser than the operands themselves
+    # (-1 and -2 have one hash in CPython, 1 and True are one dict key, '0x10' and '16' one value)
+    pool.append({'src': 'addi t0, t0, -2\njal zero, -2\nlw x5, -2(x6)\nlui x7, 2\nc.addi x8, -2\n', 'compress': False, 'dicts': True})
+    pool.append({'src': 'addi t0, t0, -1\nlw x5, -1(x6)\nlui x7, 1\nc.addi x8, -1\naddi t0, t0, -2\n', 'compress': False, 'dicts': True})
+    pool.append({'src': 'addi t0, t0, -1\nsw x5, -1(x6)\nsw x5, -2(x6)\nandi x9, x9, -2\nandi x9, x9, -1\n', 'compress': True, 'dicts': False})
+    # one name, `NAMEX`, a constant in a build that passes no tables and a label in the next build that passes none either: tables a
+    # caller did not pass are nobody's
+    pool.append({'src': 'NAMEX = 64\nli x5, NAMEX\naddi x6, x0, NAMEX\n', 'compress': False, 'dicts': False})
+    pool.append({'src': 'nop\nnop\nNAMEX:\nj NAMEX\nli x5, NAMEX\ncall NAMEX\nbeqz x8, NAMEX\ndw NAMEX\n', 'compress': False, 'dicts': False})
+    pool.append({'src': 'NAMEY:\nnop\nj NAMEY\n', 'compress': True, 'dicts': False})
+    pool.append({'src': 'NAMEY = 12\naddi x6, x0, NAMEY\nj NAMEY\n', 'compress': True, 'dicts': False})
     # every label-moving step at least once (short li, near call, compression, align), four labels, run with a left-over table
     for k in range(2):
         pool.append({'src': 'A0:\nli x5, 1\nA1:\naddi x8, x8, 1\nA2:\ncall A0\nbytes 1 2\nalign 8\nA3:\nj A1\nbeqz x8, A3\ntail A2\nli x6, A2\ndw A3\ndw A1\n',
